@@ -123,7 +123,7 @@ def r2(run):
             if t["k"] == "assert" and "BoundsCheck" in t["msg"] and not t.get("exp"):
                 n += 1
                 run.ob("%s|bounds-check" % fn, False, t["sp"], "indexing with a bounds check in the decoding layer may panic", reason="panic-on-request-data")
-    run.floor("panic-capable sites enumerated in the decoding layer", n, 8)
+    run.floor("panic-capable sites enumerated in the decoding layer", n, 3)
 
 
 def routes_adt(run):
